@@ -1358,33 +1358,33 @@ def _check_small_ext(rep, impl, q, f, sym_positions, fixed, tag, rp, width=32, w
         core.explore(run_ring, ctx_kwargs=dict(backend=("bv", width), branch_timeout_ms=60000), on_path=on_path)
 
 
-def _mk_small_fq2(impl):
+def _fq2_polys(q):
+    polys = [[1, 0, 1]]     # x^2 + 1, irreducible for q == 3 (mod 4)
+    for m1 in range(1, q):
+        found = [[m0, m1, 1] for m0 in range(1, q) if is_irreducible([m0, m1, 1], q)]
+        if found:
+            polys.append(found[0])     # the first irreducible quadratic with a linear term
+            break
+    return polys
+
+
+def _mk_small_fq2(impl, q, k):
     def f(rep, tier):
-        qs = [3, 7] if tier == "quick" else [3, 7, 11, 19]
-        for q in qs:
-            polys = [[1, 0, 1]]     # x^2 + 1, irreducible for q == 3 (mod 4)
-            # plus the first irreducible quadratic with a linear term
-            for m1 in range(1, q):
-                found = [[m0, m1, 1] for m0 in range(1, q) if is_irreducible([m0, m1, 1], q)]
-                if found:
-                    polys.append(found[0])
-                    break
-            if tier == "quick" and q > 3:
-                polys = polys[:1]
-            for fpoly in polys:
-                if not is_irreducible(fpoly, q):
-                    rep.unknown("%s reducible over GF(%d)?" % (fpoly, q))
-                    continue
-                rp = {"kind": "c08_small_ext", "args": {"impl": impl, "q": q, "f": fpoly}}
-                _check_small_ext(rep, impl, q, fpoly, {0, 1}, [[0, 0]] * 3, "%s FQP over GF(%d^2) modulus %s, all elements" % (impl, q, fpoly), rp, width=24,
-                                 with_ring=(fpoly == [1, 0, 1]))
+        fpoly = _fq2_polys(q)[k]
+        if not is_irreducible(fpoly, q):
+            rep.unknown("%s reducible over GF(%d)?" % (fpoly, q))
+            return
+        rp = {"kind": "c08_small_ext", "args": {"impl": impl, "q": q, "f": fpoly}}
+        _check_small_ext(rep, impl, q, fpoly, {0, 1}, [[0, 0]] * 3, "%s FQP over GF(%d^2) modulus %s, all elements" % (impl, q, fpoly), rp, width=24,
+                         with_ring=(k == 0))
     return f
 
 
 for _impl in ("ref", "opt"):
-    obligation("C08", "small_fq2_%s" % _impl, timeout=900,
-               bound="every element/pair/triple of GF(p^2), p in {3,7} (quick) / {3,7,11,19} (thorough), modulus x^2+1; real inv (Euclid with degree branches), no stubs")(
-        _mk_small_fq2(_impl))
+    for _q, _k, _tier in ((3, 0, "quick"), (3, 1, "quick"), (7, 0, "thorough"), (7, 1, "thorough"), (11, 0, "thorough")):
+        obligation("C08", "small_fq2_%s_q%d_m%d" % (_impl, _q, _k), timeout=900, tier=_tier,
+                   bound="every element/pair/triple of GF(%d^2) with modulus %s; real inv (Euclid with degree branches), no stubs; exact 24-bit arithmetic"
+                         % (_q, "x^2+1" if _k == 0 else "the first irreducible x^2+bx+c with b != 0"))(_mk_small_fq2(_impl, _q, _k))
 
 
 def _mk_small_deg12(impl):
